@@ -175,26 +175,7 @@ def run(world, rep, tier, only=None):
         rep.ob("C09.d", site(rd, "copy-out preceded by a filling load#%d" % i),
                rd.dominated_by(n, [l for l in rloads if T.const(arg(l, 1)) == 0]),
                "load_buffer(file, 0) dominates memcpy(…, file->buf + start, …)")
-    ins = [n for n in calls_to(wr, "memcpy") if _buf_rooted(arg(n, 0) or {})]
-    rep.floor("C09.d copies into the buffer in ext2fs_file_write", len(ins), 1)
-    dirty = [n for n in wr.nodes() if _flag_store(n, "EXT2_FILE_BUF_DIRTY", True)]
-    wloads = calls_to(wr, "load_buffer")
-    for i, n in enumerate(ins):
-        paired = wr.dominated_by(n, dirty) or wr.must_pass_after(n, dirty)
-        rep.ob("C09.d", site(wr, "copy-in paired with the dirty mark#%d" % i), bool(dirty) and paired,
-               "EXT2_FILE_BUF_DIRTY is set on every path through memcpy(file->buf + start, …)")
-        rep.ob("C09.d", site(wr, "copy-in preceded by a load#%d" % i), wr.dominated_by(n, wloads), "load_buffer dominates the copy")
-        # dontfill may be non-zero only when the copy covers the whole block
-        ln = T.path(arg(n, 2))
-        for j, l in enumerate(wloads):
-            a = T.strip(arg(l, 1))
-            ok = T.const(a) == 0
-            if not ok and isinstance(a, dict) and a.get("k") == "b" and a.get("o") == "==":
-                sides = [T.path(a["l"]), T.path(a["r"])]
-                flds = T.field_names(a)
-                ok = ln is not None and ln in sides and "blocksize" in flds
-            rep.ob("C09.d", site(wr, "fill skipped only for whole-block writes#%d.%d" % (i, j)), ok,
-                   "load_buffer's dontfill is 0 or `<copy length> == fs->blocksize` (copy length `%s`): %s" % (ln, T.pp(a)[:50]))
+    copy_in_rules(prog, rep, "C09.d")
 
     # ------------------------------------------------------------------ C09.i every read path stops at i_size
     # sibling agreement: whichever routine copies file content to the caller limits the count by the
@@ -472,6 +453,33 @@ def run(world, rep, tier, only=None):
         rep.ob("C09.v", site(wi, "inline area stored with max(old length, end of the write)#%d" % i), from_old and from_end,
                "length handed to ext2fs_inline_data_set `%s` derives from the length read back (%s): %s, from position and count: %s"
                % (T.pp(a4)[:30], sorted(old), from_old, from_end))
+
+
+def copy_in_rules(prog, rep, RULE):
+    """every copy into the handle's block buffer is paired with the dirty mark and preceded by a load, and the load
+    skips filling the buffer only for whole-block writes.  Shared by C09.d and C18.i (mke2fs -d / debugfs write set
+    i_size ahead of the data: a partial last block written without the fill leaves stale bytes after EOF on disk)."""
+    wr = prog.fn("ext2fs_file_write", FIO)
+    ins = [n for n in calls_to(wr, "memcpy") if _buf_rooted(arg(n, 0) or {})]
+    rep.floor(RULE + " copies into the buffer in ext2fs_file_write", len(ins), 1)
+    dirty = [n for n in wr.nodes() if _flag_store(n, "EXT2_FILE_BUF_DIRTY", True)]
+    wloads = calls_to(wr, "load_buffer")
+    for i, n in enumerate(ins):
+        paired = wr.dominated_by(n, dirty) or wr.must_pass_after(n, dirty)
+        rep.ob(RULE, site(wr, "copy-in paired with the dirty mark#%d" % i), bool(dirty) and paired,
+               "EXT2_FILE_BUF_DIRTY is set on every path through memcpy(file->buf + start, …)")
+        rep.ob(RULE, site(wr, "copy-in preceded by a load#%d" % i), wr.dominated_by(n, wloads), "load_buffer dominates the copy")
+        # dontfill may be non-zero only when the copy covers the whole block
+        ln = T.path(arg(n, 2))
+        for j, l in enumerate(wloads):
+            a = T.strip(arg(l, 1))
+            ok = T.const(a) == 0
+            if not ok and isinstance(a, dict) and a.get("k") == "b" and a.get("o") == "==":
+                sides = [T.path(a["l"]), T.path(a["r"])]
+                flds = T.field_names(a)
+                ok = ln is not None and ln in sides and "blocksize" in flds
+            rep.ob(RULE, site(wr, "fill skipped only for whole-block writes#%d.%d" % (i, j)), ok,
+                   "load_buffer's dontfill is 0 or `<copy length> == fs->blocksize` (copy length `%s`): %s" % (ln, T.pp(a)[:50]))
 
 
 def expand_keeps_size(prog, rep, RULE):
